@@ -246,6 +246,7 @@ static void check_c01_c03(decoder_t *d, int expect_words)
     }
 }
 
+static int known_c04_scores;
 static void check_c04(decoder_t *d)
 {
     alignment_t *al;
@@ -312,6 +313,10 @@ static void check_c04(decoder_t *d)
         }
         if (pdu_sum != du) failf("C04", "phones do not partition the word \"%s\"%s", seg[i].word, NULL);
         if (psum != wscore) failf("C04", "word score of \"%s\" is not the sum of its phones%s", seg[i].word, NULL);
+        /* known finding (known_findings.txt): the clause "each word's score equals the acoustic part of the score the
+         * search assigned to that word" does not hold: the aligner's scores are normalised differently per frame and the
+         * first state's score is left at 0 */
+        if (wscore != seg[i].ascr) known_c04_scores = 1;
     }
 }
 
@@ -687,6 +692,7 @@ int main(int argc, char **argv)
     decode(d, 3, ONE_CALL); check_all(d, 1);
     decode(d, 3, BLOCKS); check_all(d, 1);
     decoder_free(d);
+    if (known_c04_scores && want("C04")) printf("KNOWN alignment word scores differ from the acoustic scores of the first pass\n");
     printf("CASES %ld\nDISTINCT %ld\n", cases, distinct);
     return fails ? 1 : 0;
 }
